@@ -53,12 +53,14 @@ import (
 	"reflect"
 	"runtime"
 	"slices"
-	"sync/atomic"
+	"strings"
 	_ "unsafe"
 
 	"golang.org/x/tools/go/ssa"
-	"golang.org/x/tools/internal/typeparams"
+	"math/big"
 )
+
+var _ = big.NewInt
 
 type continuation int
 
@@ -90,6 +92,27 @@ type interpreter struct {
 	runtimeErrorString types.Type             // the runtime.errorString type
 	sizes              types.Sizes            // the effective type-sizing function
 	goroutines         int32                  // atomically updated
+
+	// symbolic layer (one interpreter per path)
+	run          *Run
+	tc           *termCtx
+	pc           []*Term
+	prefix       []bool
+	decisions    []bool
+	newPrefixes  [][]bool
+	model        map[string]*big.Int
+	modelGen     int
+	memoModelGen int
+	memo         map[int]*big.Int
+	unknownFeas  int
+	symStrN      int
+	steps        int64
+	solver       *Solver
+	res          *PathResult
+	initDepth    int
+	ifCount      map[*frame]map[*ssa.If]int
+	ghost        map[string]value
+	callDepth    int
 }
 
 type deferred struct {
@@ -124,9 +147,7 @@ func (fr *frame) get(key ssa.Value) value {
 	case *ssa.Const:
 		return constValue(key)
 	case *ssa.Global:
-		if r, ok := fr.i.globals[key]; ok {
-			return r
-		}
+		return fr.i.globalAddr(key)
 	}
 	if r, ok := fr.env[key]; ok {
 		return r
@@ -145,8 +166,12 @@ func (fr *frame) runDefer(d *deferred) {
 	defer func() {
 		if !ok {
 			// Deferred call created a new state of panic.
+			p := classifyPanic(recover(), fr)
+			if a, isAbort := p.(abort); isAbort {
+				panic(a)
+			}
 			fr.panicking = true
-			fr.panic = recover()
+			fr.panic = p
 		}
 	}()
 	call(fr.i, fr, d.instr.Pos(), d.fn, d.args)
@@ -195,10 +220,10 @@ func visitInstr(fr *frame, instr ssa.Instruction) continuation {
 		// no-op
 
 	case *ssa.UnOp:
-		fr.env[instr] = unop(instr, fr.get(instr.X))
+		fr.env[instr] = unop(fr.i, instr, fr.get(instr.X))
 
 	case *ssa.BinOp:
-		fr.env[instr] = binop(instr.Op, instr.X.Type(), fr.get(instr.X), fr.get(instr.Y))
+		fr.env[instr] = binop(fr.i, instr.Op, instr.X.Type(), fr.get(instr.X), fr.get(instr.Y))
 
 	case *ssa.Call:
 		fn, args := prepareCall(fr, &instr.Call)
@@ -211,13 +236,13 @@ func visitInstr(fr *frame, instr ssa.Instruction) continuation {
 		fr.env[instr] = fr.get(instr.X) // (can't fail)
 
 	case *ssa.Convert:
-		fr.env[instr] = conv(instr.Type(), instr.X.Type(), fr.get(instr.X))
+		fr.env[instr] = conv(fr.i, instr.Type(), instr.X.Type(), fr.get(instr.X))
 
 	case *ssa.SliceToArrayPointer:
 		fr.env[instr] = sliceToArrayPointer(instr.Type(), instr.X.Type(), fr.get(instr.X))
 
 	case *ssa.MakeInterface:
-		fr.env[instr] = iface{t: instr.X.Type(), v: fr.get(instr.X)}
+		fr.env[instr] = iface{t: instr.X.Type(), v: copyVal(fr.get(instr.X))}
 
 	case *ssa.Extract:
 		fr.env[instr] = fr.get(instr.Tuple).(tuple)[instr.Index]
@@ -244,17 +269,18 @@ func visitInstr(fr *frame, instr ssa.Instruction) continuation {
 		fr.runDefers()
 
 	case *ssa.Panic:
+		fr.i.notePanic(fr, instr)
 		panic(targetPanic{fr.get(instr.X)})
 
 	case *ssa.Send:
 		fr.get(instr.Chan).(chan value) <- fr.get(instr.X)
 
 	case *ssa.Store:
-		store(typeparams.MustDeref(instr.Addr.Type()), fr.get(instr.Addr).(*value), fr.get(instr.Val))
+		store(mustDeref(instr.Addr.Type()), fr.get(instr.Addr).(*value), fr.get(instr.Val))
 
 	case *ssa.If:
 		succ := 1
-		if fr.get(instr.Cond).(bool) {
+		if fr.i.branch(fr, instr) {
 			succ = 0
 		}
 		fr.prevBlock, fr.block = fr.block, fr.block.Succs[succ]
@@ -278,12 +304,7 @@ func visitInstr(fr *frame, instr ssa.Instruction) continuation {
 		}
 
 	case *ssa.Go:
-		fn, args := prepareCall(fr, &instr.Call)
-		atomic.AddInt32(&fr.i.goroutines, 1)
-		go func() {
-			call(fr.i, nil, instr.Pos(), fn, args)
-			atomic.AddInt32(&fr.i.goroutines, -1)
-		}()
+		panic(unsupported("go statement"))
 
 	case *ssa.MakeChan:
 		fr.env[instr] = make(chan value, asInt64(fr.get(instr.Size)))
@@ -298,7 +319,7 @@ func visitInstr(fr *frame, instr ssa.Instruction) continuation {
 			// local
 			addr = fr.env[instr].(*value)
 		}
-		*addr = zero(typeparams.MustDeref(instr.Type()))
+		*addr = zero(mustDeref(instr.Type()))
 
 	case *ssa.MakeSlice:
 		slice := make([]value, asInt64(fr.get(instr.Cap)))
@@ -512,16 +533,37 @@ func callSSA(i *interpreter, caller *frame, callpos token.Pos, fn *ssa.Function,
 	}
 	if fn.Parent() == nil {
 		name := fn.String()
+		if strings.HasPrefix(fn.Name(), "verif") {
+			if prim := verifPrims[fn.Name()]; prim != nil {
+				return prim(fr, args)
+			}
+		}
 		if ext := externals[name]; ext != nil {
 			if i.mode&EnableTracing != 0 {
 				fmt.Fprintln(os.Stderr, "\t(external)")
 			}
 			return ext(fr, args)
 		}
+		if fn.Blocks == nil && fn.Pkg != nil {
+			fn.Pkg.Build()
+		}
 		if fn.Blocks == nil {
-			panic("no code for function: " + name)
+			if ext := lateExternal(name); ext != nil {
+				return ext(fr, args)
+			}
+			panic(unsupported("no code for function: " + name))
+		}
+		if i.res != nil && fn.Pkg != nil {
+			if pp := fn.Pkg.Pkg.Path(); strings.HasPrefix(pp, "mods.irisnet.org/") {
+				i.res.funcs[name] = true
+			}
 		}
 	}
+	i.callDepth++
+	if i.callDepth > 2000 {
+		panic(abort{"budget", "call depth > 2000 in " + fn.String()})
+	}
+	defer func() { i.callDepth-- }()
 
 	// generic function body?
 	if fn.TypeParams().Len() > 0 && len(fn.TypeArgs()) == 0 {
@@ -532,7 +574,7 @@ func callSSA(i *interpreter, caller *frame, callpos token.Pos, fn *ssa.Function,
 	fr.block = fn.Blocks[0]
 	fr.locals = make([]value, len(fn.Locals))
 	for i, l := range fn.Locals {
-		fr.locals[i] = zero(typeparams.MustDeref(l.Type()))
+		fr.locals[i] = zero(mustDeref(l.Type()))
 		fr.env[l] = &fr.locals[i]
 	}
 	for i, p := range fn.Params {
@@ -574,8 +616,12 @@ func runFrame(fr *frame) {
 		if fr.i.mode&DisableRecover != 0 {
 			return // let interpreter crash
 		}
+		p := classifyPanic(recover(), fr)
+		if a, ok := p.(abort); ok {
+			panic(a) // engine-level: invisible to the target program
+		}
 		fr.panicking = true
-		fr.panic = recover()
+		fr.panic = p
 		if fr.i.mode&EnableTracing != 0 {
 			fmt.Fprintf(os.Stderr, "Panicking: %T %v.\n", fr.panic, fr.panic)
 		}
@@ -596,6 +642,10 @@ func runFrame(fr *frame) {
 				} else {
 					fmt.Fprintln(os.Stderr, "\t", instr)
 				}
+			}
+			fr.i.steps++
+			if fr.i.steps > fr.i.run.opts.MaxSteps {
+				panic(abort{"budget", fmt.Sprintf("more than %d interpreted instructions on one path", fr.i.run.opts.MaxSteps)})
 			}
 			if visitInstr(fr, instr) == kReturn {
 				return
@@ -709,7 +759,7 @@ func Interpret(mainpkg *ssa.Package, mode Mode, sizes types.Sizes, filename stri
 		for _, m := range pkg.Members {
 			switch v := m.(type) {
 			case *ssa.Global:
-				cell := zero(typeparams.MustDeref(v.Type()))
+				cell := zero(mustDeref(v.Type()))
 				i.globals[v] = &cell
 			}
 		}
